@@ -1,5 +1,22 @@
 /-
-NodeTie — tie T1 for the navigation nodes: lemmas.
+NodeTie — tie T1 for the navigation nodes, lemmas (statements for the pipeline: Props/NodesGen.lean).
+
+The `retrieve` / `retrieveMap` / `retrieveList` methods as the translator reads them from the Go
+source (Gen/NodesGo.lean, regenerated on every run by the generator `nodes`) against the equations
+of the hand-written model `Impl.retrieve`. Contents:
+
+  * receivers of the model's nodes (`basicRecv`, `singleRecv`, `wildRecv`, `multiRecv`, `unionRecv`,
+    `filterRecv`, `descRecv`): the node's Info, its accessor flag, `next` = the model's evaluation of
+    the rest of the chain (`none` for the empty rest);
+  * the three helpers (`anyNext_eq`, `mapNext_eq`, `listNext_eq`);
+  * generated `for … range` loops with the deepest-error bookkeeping are `Impl.loopAcc`
+    (`forRange_loopAcc`, `record_eq`, `finish_eq`) — the proofs never depend on the shape of a loop
+    body beyond definitional unfolding: bodies are left to unification and compared pointwise;
+  * one lemma per node kind (`root_eq` … `filter_eq`);
+  * recursive descent: `descBody` (the loop body as generated), `descBody_eq` (one iteration: pop,
+    hand the container to `next` if its kind is required, push the member containers in reverse),
+    `descLoop` (induction on fuel: the stack loop visits `todo S` = the pre-order enumeration of
+    what is on the stack), `descLoop_eq_preorder`, `desc_eq`, and `containersLoc_length_le` (fuel).
 -/
 import JPV.Gen.NodesGo
 import JPV.Lemmas.Refine
@@ -1072,7 +1089,7 @@ theorem pushDown_rev (get : Int → M GoVal) (body : Int → List GoVal → M (L
       List.nil_append, List.cons_append, List.map_cons, forRange, hbody, hlast]
     show forRange _ (if r.v.isContainer = true then S ++ [r] else S) body = _
     rw [pushDown_rev get body hbody rs _ hinit]
-    cases hc : r.v.isContainer <;> simp [List.filter_cons, hc]
+    cases hc : r.v.isContainer <;> simp [hc]
 
 theorem pushDown (get : Int → M GoVal) (body : Int → List GoVal → M (List GoVal))
     (hbody : ∀ ix tn, body ix tn = get ix >>= fun node => .ok (if node.v.isContainer then tn ++ [node] else tn))
